@@ -1160,7 +1160,19 @@ fn cmd_c12(args: &[String]) {
         ("retain on a tree bin", types::H_ZERO, 64, (0..12).collect(), COp::Retain(2)),
         ("resize that splits a tree bin", types::H_HIGH, 64, (0..47).collect(), COp::Insert(47, 55)),
     ];
-    let readers = vec![COp::Get(2), COp::Get(99), COp::ContainsKey(1), COp::GetKeyValue(3), COp::Iter, COp::Len];
+    // keys of low and of high bins (a transfer forwards the high bins first), present and absent
+    let readers = vec![
+        COp::Get(2),
+        COp::Get(99),
+        COp::ContainsKey(1),
+        COp::GetKeyValue(3),
+        COp::Get(15),
+        COp::ContainsKey(31),
+        COp::GetKeyValue(10),
+        COp::Get(46),
+        COp::Iter,
+        COp::Len,
+    ];
     for (name, hasher, cap, prefill, wop) in &scenarios {
         for rop in &readers {
             let mut k = 1u64;
@@ -1175,7 +1187,7 @@ fn cmd_c12(args: &[String]) {
                     pin: false,
                     linger: 0,
                 };
-                let opts = RunOpts { policy: Policy::Prefer(0), step_limit: 400_000, freeze: Some((0, k, 1)) };
+                let opts = RunOpts { policy: Policy::Prefer(0), step_limit: 30_000, freeze: Some((0, k, 1)) };
                 let r = with_hasher!(*hasher, S, { run_program::<S>(&prog, opts) });
                 runs += 1;
                 max_reader_steps = max_reader_steps.max(*r.steps_of.get(1).unwrap_or(&0));
@@ -1198,10 +1210,13 @@ fn cmd_c12(args: &[String]) {
                 }
                 // stop once the writer finished before reaching its k-th yield point
                 let writer_steps = *r.steps_of.get(0).unwrap_or(&0);
-                if writer_steps < k || k >= max_k {
+                // a resize needs a few hundred writer steps before the low bins are forwarded
+                let limit = if name.contains("resize") || name.contains("reserve") { max_k.max(260) } else { max_k };
+                if writer_steps < k || k >= limit {
                     break;
                 }
-                k += 1;
+                // beyond the first max_k suspension points, every third one
+                k += if k > max_k && max_k < 200 { 3 } else { 1 };
             }
         }
     }
